@@ -1141,13 +1141,25 @@ where
 /// happens to run (a reader's fallback load that was helped, a writer's store, a guard drop).
 /// Every call is wrapped in catch_unwind; afterwards counts must be exact and slots empty.
 pub fn panic_dtor<S: Strat>(fill: bool, two_writers: bool) {
+    panic_dtor_g::<S>(fill, two_writers, false)
+}
+
+/// `own_guards`: the reader's fast slots are occupied by guards of the container under test
+/// itself (debts on the value that gets replaced), not of the filler.
+pub fn panic_dtor_g<S: Strat>(fill: bool, two_writers: bool, own_guards: bool) {
     world::set_extra_tag(",C18");
+    rt::set_context_tag("C18");
     let c = Cont::<S>::new(0, V::new(1));
     let fil = filler::<S>();
+    // which value's destructor panics is part of the enumeration: the initial value, or (with two
+    // writers) the value the first writer stores, which may die as an unneeded helper replacement
+    // in the middle of that writer's debt walk
+    let victim: u64 = if two_writers { [1u64, 11][rt::choose(2)] } else { 1 };
+    world::observe(victim);
     crate::varc::reg(|r| {
         r.on_destroy = Some(Rc::new(move |label| {
-            if label == 1 && !rt::draining() {
-                std::panic::panic_any(rt::Injected("destructor of value #1"));
+            if label == victim && !rt::draining() {
+                std::panic::panic_any(rt::Injected("destructor of a value"));
             }
         }))
     });
@@ -1166,8 +1178,16 @@ pub fn panic_dtor<S: Strat>(fill: bool, two_writers: bool) {
     let r = {
         let (c, fil) = (c.clone(), fil.clone());
         rt::spawn(move || {
-            let h = prologue(&fil, fill);
-            rt::quiet(|| rt::barrier(n));
+            let h = prologue(&fil, fill && !own_guards);
+            let mut own = Vec::new();
+            rt::quiet(|| {
+                if own_guards {
+                    for _ in 0..SLOTS {
+                        own.push(c.sw.load());
+                    }
+                }
+                rt::barrier(n);
+            });
             for _ in 0..2 {
                 let mut g = None;
                 guarded(&mut || {
@@ -1180,6 +1200,14 @@ pub fn panic_dtor<S: Strat>(fill: bool, two_writers: bool) {
                     guarded(&mut || drop(g.take()));
                 }
             }
+            // guards taken before the race still denote the initial value and keep it alive
+            for x in &own {
+                use_value(x, 1, "guard held across a panicking writer");
+            }
+            while let Some(x) = own.pop() {
+                let mut x = Some(x);
+                guarded(&mut || drop(x.take()));
+            }
             release(h);
         })
     };
@@ -1187,9 +1215,14 @@ pub fn panic_dtor<S: Strat>(fill: bool, two_writers: bool) {
     for wi in 0..(1 + two_writers as u64) {
         let (c, fil) = (c.clone(), fil.clone());
         ws.push(rt::spawn(move || {
+            if wi == 1 {
+                // the second writer's store is one complete call placed anywhere (budget k)
+                rt::atomic_thread();
+            }
             let h = prologue(&fil, false);
             rt::quiet(|| rt::barrier(n));
             guarded(&mut || c.sw.store(V::new(11 + 10 * wi)));
+            rt::call_boundary();
             release(h);
         }));
     }
@@ -1205,7 +1238,7 @@ pub fn panic_dtor<S: Strat>(fill: bool, two_writers: bool) {
     let mut owners: HashMap<u64, usize> = HashMap::new();
     owners.insert(fl, 2);
     owners.insert(90, 1);
-    world::check_counts::<1>(&owners, "after panics in the destructor of a replaced value");
+    world::check_counts::<1>(&owners, &format!("after panics in the destructor of value #{}", victim));
     rt::quiet(|| drop(fin));
     world::world(|w| {
         w.history.clear();
@@ -1217,6 +1250,7 @@ pub fn panic_dtor<S: Strat>(fill: bool, two_writers: bool) {
 /// rcu whose closure panics on its k-th attempt (retries are forced by a competing writer).
 pub fn panic_rcu<S: Strat>(fill: bool, panic_at: u64) {
     world::set_extra_tag(",C18");
+    rt::set_context_tag("C18");
     let c = Cont::<S>::new(0, V::new(1));
     let fil = filler::<S>();
     let t = {
@@ -1690,4 +1724,87 @@ pub fn map_life<S: Strat>() {
     w.join();
     user.join();
     epilogue_p(vec![c], fil, vec![], false, "C17");
+}
+
+// ------------------------------------------------------------------------------------------
+// C20 under the engine: serializing a container while it is written
+
+/// T{serialize the container (twice)} || W{store, store}: the serializer must work on a value the
+/// container protects for it; the output must be the serialization of a value that was stored.
+pub fn serde_conc<S: Strat>(fill: bool) {
+    rt::set_context_tag("C20");
+    let c = Cont::<S>::new(0, V::new(1));
+    let fil = filler::<S>();
+    let w = {
+        let (c, fil) = (c.clone(), fil.clone());
+        rt::spawn(move || {
+            let h = prologue(&fil, false);
+            rt::quiet(|| rt::barrier(2));
+            store(&c, V::new(11));
+            store(&c, V::new(12));
+            release(h);
+        })
+    };
+    let t = {
+        let (c, fil) = (c.clone(), fil.clone());
+        rt::spawn(move || {
+            let h = prologue(&fil, fill);
+            rt::quiet(|| rt::barrier(2));
+            let mut last = 0;
+            for _ in 0..2 {
+                rt::call_begin("serialize", "C08", LOAD_CAP + 4);
+                let out = serde_json::to_string(&c.sw);
+                rt::call_end();
+                match out {
+                    Ok(s) => {
+                        let l: u64 = s.parse().unwrap_or(u64::MAX);
+                        let o = order_of(l);
+                        if (o == 99 || o < last) && !rt::draining() {
+                            rt::violation("C20", "serde", format!("the container serialized as {:?}, which is not a value it held at that time", s));
+                        }
+                        last = o;
+                        world::observe(l);
+                    }
+                    Err(e) => rt::violation("C20", "serde", format!("serialization failed: {}", e)),
+                }
+            }
+            release(h);
+        })
+    };
+    rt::join_all();
+    w.join();
+    t.join();
+    epilogue_p(vec![c], fil, vec![], false, "C20");
+}
+
+// ------------------------------------------------------------------------------------------
+// C14 under the engine: sequential programs with spurious compare-exchange failures
+
+/// One model thread runs a sequential program of the C14 alphabet under a strategy and compares
+/// with the reference model after every step; the engine enumerates spurious failures of every
+/// weak compare-exchange on the way (they exist on LL/SC hardware, never on x86).
+pub fn seq_spurious(strategy: u8) {
+    use crate::seq::{Form, Op};
+    rt::set_context_tag("C14,C02");
+    let programs: Vec<Vec<Op>> = vec![
+        vec![Op::New(0, 1), Op::Load(0), Op::Store(0, 2), Op::DropGuard(1), Op::LoadFull(0), Op::DropHandle(2), Op::DropCont(0)],
+        vec![Op::New(0, 1), Op::Load(0), Op::Load(0), Op::Load(0), Op::Swap(0, 2), Op::GuardInto(1), Op::DropGuard(1), Op::DropGuard(1), Op::IntoInner(0)],
+        vec![Op::New(0, 1), Op::Cas(0, Form::Ref, 1, 2), Op::Cas(0, Form::Ref, 1, 3), Op::Rcu(0, 0), Op::DropGuard(1), Op::DropGuard(2), Op::DropCont(0)],
+        vec![Op::New(0, 1), Op::New(1, 1), Op::Load(0), Op::Store(1, 2), Op::Rcu(0, 1), Op::DropGuard(1), Op::LoadFull(1), Op::DropCont(1), Op::DropCont(0)],
+    ];
+    let p = &programs[rt::choose(programs.len())];
+    let r = match strategy {
+        0 => crate::seq::replay_path::<arc_swap::DefaultStrategy>(p, true),
+        _ => {
+            #[allow(deprecated)]
+            let r = crate::seq::replay_path::<arc_swap::strategy::test_strategies::FillFastSlots>(p, true);
+            r
+        }
+    };
+    if let Err(e) = r {
+        if !rt::draining() {
+            rt::violation("C14,C02", "model", format!("sequential program {:?}: {}", p, e));
+        }
+    }
+    world::observe(p.len() as u64);
 }
